@@ -308,10 +308,67 @@ fn adjacent_group_led_by_variable(case: &mut Case) {
     }
 }
 
+/// (B'') the same precedence through `fallback` / `fallback_with`, which evaluate on a copy of the
+/// state: `long("alpha").env(V).argument::<u32>().fallback(0).many()` given `--alpha 1` while V
+/// holds text that does not convert
+fn repeated_defaulted_item_with_invalid_variable(case: &mut Case) {
+    let mut rng = case.rng(13);
+    let var = format!("BPAF_VERIF_REP_{}", case.index % 79);
+    let mut names = Names::long("alpha");
+    names.envs = vec![var.clone()];
+    let a = Spec::Item(Item {
+        id: 1,
+        names,
+        help: None,
+        leaf: Leaf::Arg {
+            ty: Ty::U32,
+            metavar: "A".into(),
+            adjacent: false,
+        },
+    });
+    let dflt = Spec::wrap(
+        if rng.chance(1, 2) { W::Fallback } else { W::FallbackWithOk },
+        2,
+        a,
+    );
+    let (w, wname) = match rng.below(3) {
+        0 => (W::Many { catch: false }, "many"),
+        1 => (W::Some_ { catch: false }, "some"),
+        _ => (W::Collect { catch: false }, "collect"),
+    };
+    let b = Bench::new(case, OptSpec::plain(Spec::Seq(vec![Spec::wrap(w, 3, dflt)])));
+    let named = RunOpts {
+        name: Some("harnesschild".to_string()),
+        ..RunOpts::default()
+    };
+    let argv = vec![b"--alpha".to_vec(), b"1".to_vec()];
+    std::env::remove_var(&var);
+    let (clean, _) = b.run_opts(case, &argv, "repeated-defaulted-item:variable-unset", &named, 26);
+    std::env::set_var(&var, "zz");
+    let class = format!("repeated-defaulted-item:{}:invalid-variable", wname);
+    let (out, _) = b.run_opts(case, &argv, &class, &named, 27);
+    std::env::remove_var(&var);
+    if out != clean && !matches!(out, Outcome::Panic(_) | Outcome::FuelExhausted) {
+        case.rep.violation(
+            &format!("variable-of-present-defaulted-item-influences:{}", out.class()),
+            "precedence",
+            case.index,
+            b.detail(
+                &argv,
+                &class,
+                &format!("the outcome without the variable ({}=zz is set): {}", var, clean.show()),
+                &out,
+            ),
+        );
+    }
+}
+
 pub fn run_case(case: &mut Case) {
     if case.index % 8 == 5 {
         if (case.index / 8) % 4 == 3 {
             adjacent_group_led_by_variable(case);
+        } else if (case.index / 8) % 4 == 2 {
+            repeated_defaulted_item_with_invalid_variable(case);
         } else {
             half_given_group(case);
         }
@@ -506,8 +563,14 @@ pub fn run_case(case: &mut Case) {
                 .collect();
             if !cands.is_empty() {
                 let (name, id, ty) = (*rng.pick(&cands)).clone();
+                // a value that does not convert, or one that converts and then fails the guard
+                let under_guard = b.spec.root.path_to(id).map_or(false, |p| {
+                    p.iter().any(|e| matches!(e, PathEl::Wrap(W::Guard, _)))
+                });
                 let bad: Vec<u8> = match ty {
+                    Some(Ty::Str) if under_guard && rng.chance(1, 2) => b"bad-value".to_vec(),
                     Some(Ty::Str) => b"v\xff".to_vec(),
+                    _ if under_guard && rng.chance(1, 2) => b"900001".to_vec(),
                     _ => b"12x".to_vec(),
                 };
                 let mut st = state.clone();
